@@ -452,3 +452,308 @@ pub mod bi {
         }
     }
 }
+
+/// One observed / expected accessor result (address-free).
+#[derive(Clone, Debug, PartialEq, Eq)]
+pub enum Val {
+    U(u64),
+    /// slice / str: offset relative to the owning tag, byte length, content hash
+    S { off: i64, len: usize, hash: u64 },
+    /// an error value of the accessor's Result (small code)
+    E(u32),
+    Panic,
+}
+
+#[derive(Clone, Debug, PartialEq, Eq)]
+pub struct Rec {
+    pub name: &'static str,
+    pub val: Val,
+}
+
+/// Reference decoders: the record list the accessor battery must produce for
+/// a spec-conformant tag image `t` (at least `size` bytes), read at literal
+/// offsets (DESIGN Appendix A).  `Debug` entries are not part of it.
+pub mod decode {
+    use super::bi::*;
+    use super::*;
+    use crate::hash::hash_bytes;
+
+    fn u(v: &mut Vec<Rec>, name: &'static str, x: u64) {
+        v.push(Rec { name, val: Val::U(x) });
+    }
+    fn s(v: &mut Vec<Rec>, name: &'static str, t: &[u8], off: usize, len: usize) {
+        v.push(Rec { name, val: Val::S { off: off as i64, len, hash: hash_bytes(&t[off..off + len]) } });
+    }
+    fn utf8(v: &mut Vec<Rec>, name: &'static str, t: &[u8], off: usize, len: usize) {
+        if std::str::from_utf8(&t[off..off + len]).is_ok() {
+            s(v, name, t, off, len)
+        } else {
+            v.push(Rec { name, val: Val::E(2) })
+        }
+    }
+    /// NUL-terminated UTF-8 text inside t[off..size]
+    fn cstr(v: &mut Vec<Rec>, name: &'static str, t: &[u8], off: usize, size: usize) {
+        match t[off..size].iter().position(|&b| b == 0) {
+            None => v.push(Rec { name, val: Val::E(1) }),
+            Some(i) => utf8(v, name, t, off, i),
+        }
+    }
+
+    /// Whether the derived-arithmetic accessors of this image stay in range
+    /// (DESIGN 6: they are outside C04/C08).
+    pub fn derived_ok(kind: u32, t: &[u8]) -> bool {
+        let size = rd32(t, 4) as usize;
+        match kind {
+            MODULE => rd32(t, 12) >= rd32(t, 8),
+            MMAP => (0..(size - 16) / 24).all(|i| rd64(t, 16 + 24 * i).checked_add(rd64(t, 24 + 24 * i)).is_some()),
+            ELF => {
+                let (n, es) = (rd32(t, 8) as usize, rd32(t, 12) as usize);
+                (0..n).all(|i| {
+                    let o = 20 + i * es;
+                    if es == 40 {
+                        true
+                    } else {
+                        rd64(t, o + 16).checked_add(rd64(t, o + 32)).is_some()
+                    }
+                })
+            }
+            _ => true,
+        }
+    }
+
+    pub fn tag(kind: u32, t: &[u8], derived: bool, vbe_memory_model: bool) -> Vec<Rec> {
+        let mut v = Vec::new();
+        let size = rd32(t, 4) as usize;
+        let vbe = kind == VBE;
+        u(&mut v, "header.typ", rd32(t, 0) as u64);
+        u(&mut v, "header.size", size as u64);
+        u(&mut v, "size_of_val", round8(size) as u64);
+        if !vbe && kind <= 21 {
+            u(&mut v, "as_bytes.len", round8(size) as u64);
+        }
+        match kind {
+            CMDLINE => cstr(&mut v, "cmdline", t, 8, size),
+            BOOTLOADER => {
+                cstr(&mut v, "name", t, 8, size);
+                u(&mut v, "typ", rd32(t, 0) as u64);
+                u(&mut v, "size", size as u64);
+            }
+            MODULE => {
+                u(&mut v, "start_address", rd32(t, 8) as u64);
+                u(&mut v, "end_address", rd32(t, 12) as u64);
+                if derived {
+                    u(&mut v, "module_size", (rd32(t, 12) - rd32(t, 8)) as u64);
+                }
+                cstr(&mut v, "cmdline", t, 16, size);
+            }
+            MEMINFO => {
+                u(&mut v, "memory_lower", rd32(t, 8) as u64);
+                u(&mut v, "memory_upper", rd32(t, 12) as u64);
+            }
+            BOOTDEV => {
+                u(&mut v, "biosdev", rd32(t, 8) as u64);
+                u(&mut v, "slice", rd32(t, 12) as u64);
+                u(&mut v, "part", rd32(t, 16) as u64);
+            }
+            MMAP => {
+                u(&mut v, "entry_size", rd32(t, 8) as u64);
+                u(&mut v, "entry_version", rd32(t, 12) as u64);
+                s(&mut v, "memory_areas", t, 16, size - 16);
+                for i in 0..((size - 16) / 24).min(6) {
+                    let o = 16 + 24 * i;
+                    u(&mut v, "area.start_address", rd64(t, o));
+                    u(&mut v, "area.size", rd64(t, o + 8));
+                    u(&mut v, "area.typ", rd32(t, o + 16) as u64);
+                    if derived {
+                        u(&mut v, "area.end_address", rd64(t, o) + rd64(t, o + 8));
+                    }
+                }
+            }
+            VBE => {
+                u(&mut v, "mode", rd16(t, 8) as u64);
+                u(&mut v, "interface_segment", rd16(t, 10) as u64);
+                u(&mut v, "interface_offset", rd16(t, 12) as u64);
+                u(&mut v, "interface_length", rd16(t, 14) as u64);
+                let c = 16;
+                u(&mut v, "control.signature", rd32(t, c) as u64);
+                u(&mut v, "control.version", rd16(t, c + 4) as u64);
+                u(&mut v, "control.oem_string_ptr", rd32(t, c + 6) as u64);
+                u(&mut v, "control.capabilities", rd32(t, c + 10) as u64);
+                u(&mut v, "control.mode_list_ptr", rd32(t, c + 14) as u64);
+                u(&mut v, "control.total_memory", rd16(t, c + 18) as u64);
+                u(&mut v, "control.oem_software_revision", rd16(t, c + 20) as u64);
+                u(&mut v, "control.oem_vendor_name_ptr", rd32(t, c + 22) as u64);
+                u(&mut v, "control.oem_product_name_ptr", rd32(t, c + 26) as u64);
+                u(&mut v, "control.oem_product_revision_ptr", rd32(t, c + 30) as u64);
+                let m = 528;
+                u(&mut v, "mode.mode_attributes", rd16(t, m) as u64);
+                u(&mut v, "mode.window_a_attributes", t[m + 2] as u64);
+                u(&mut v, "mode.window_b_attributes", t[m + 3] as u64);
+                u(&mut v, "mode.window_granularity", rd16(t, m + 4) as u64);
+                u(&mut v, "mode.window_size", rd16(t, m + 6) as u64);
+                u(&mut v, "mode.window_a_segment", rd16(t, m + 8) as u64);
+                u(&mut v, "mode.window_b_segment", rd16(t, m + 10) as u64);
+                u(&mut v, "mode.window_function_ptr", rd32(t, m + 12) as u64);
+                u(&mut v, "mode.pitch", rd16(t, m + 16) as u64);
+                u(&mut v, "mode.resolution.0", rd16(t, m + 18) as u64);
+                u(&mut v, "mode.resolution.1", rd16(t, m + 20) as u64);
+                u(&mut v, "mode.character_size.0", t[m + 22] as u64);
+                u(&mut v, "mode.character_size.1", t[m + 23] as u64);
+                u(&mut v, "mode.number_of_planes", t[m + 24] as u64);
+                u(&mut v, "mode.bpp", t[m + 25] as u64);
+                u(&mut v, "mode.number_of_banks", t[m + 26] as u64);
+                if vbe_memory_model {
+                    u(&mut v, "mode.memory_model", t[m + 27] as u64);
+                }
+                u(&mut v, "mode.bank_size", t[m + 28] as u64);
+                u(&mut v, "mode.number_of_image_pages", t[m + 29] as u64);
+                u(&mut v, "mode.red_field.size", t[m + 31] as u64);
+                u(&mut v, "mode.red_field.position", t[m + 32] as u64);
+                u(&mut v, "mode.green_field.size", t[m + 33] as u64);
+                u(&mut v, "mode.green_field.position", t[m + 34] as u64);
+                u(&mut v, "mode.blue_field.size", t[m + 35] as u64);
+                u(&mut v, "mode.blue_field.position", t[m + 36] as u64);
+                u(&mut v, "mode.reserved_field.size", t[m + 37] as u64);
+                u(&mut v, "mode.reserved_field.position", t[m + 38] as u64);
+                u(&mut v, "mode.direct_color_attributes", t[m + 39] as u64);
+                u(&mut v, "mode.framebuffer_base_ptr", rd32(t, m + 40) as u64);
+                u(&mut v, "mode.offscreen_memory_offset", rd32(t, m + 44) as u64);
+                u(&mut v, "mode.offscreen_memory_size", rd16(t, m + 48) as u64);
+            }
+            FRAMEBUFFER => {
+                u(&mut v, "address", rd64(t, 8));
+                u(&mut v, "pitch", rd32(t, 16) as u64);
+                u(&mut v, "width", rd32(t, 20) as u64);
+                u(&mut v, "height", rd32(t, 24) as u64);
+                u(&mut v, "bpp", t[28] as u64);
+                match t[29] {
+                    0 => {
+                        let n = rd16(t, 32) as usize;
+                        u(&mut v, "buffer_type", 0);
+                        s(&mut v, "palette", t, 34, 3 * n);
+                        for i in 0..n.min(4) {
+                            u(&mut v, "color", (t[34 + 3 * i] as u64) << 16 | (t[35 + 3 * i] as u64) << 8 | t[36 + 3 * i] as u64);
+                        }
+                    }
+                    1 => {
+                        u(&mut v, "buffer_type", 1);
+                        u(&mut v, "red", (t[32] as u64) << 8 | t[33] as u64);
+                        u(&mut v, "green", (t[34] as u64) << 8 | t[35] as u64);
+                        u(&mut v, "blue", (t[36] as u64) << 8 | t[37] as u64);
+                    }
+                    2 => u(&mut v, "buffer_type", 2),
+                    b => v.push(Rec { name: "buffer_type", val: Val::E(0x100 + b as u32) }),
+                }
+            }
+            ELF => {
+                let (n, es) = (rd32(t, 8) as usize, rd32(t, 12) as usize);
+                u(&mut v, "number_of_sections", n as u64);
+                u(&mut v, "entry_size", es as u64);
+                u(&mut v, "shndx", rd32(t, 16) as u64);
+                let mut k = 0usize;
+                for _ in 0..10 {
+                    u(&mut v, "sections.len", (n - k) as u64);
+                    // skip unused
+                    let mut found = None;
+                    while k < n {
+                        let o = 20 + k * es;
+                        k += 1;
+                        let raw = rd32(t, o + 4);
+                        if matches!(raw, 1..=11 | 0x6000_0000..=0x7FFF_FFFF) {
+                            found = Some(o);
+                            break;
+                        }
+                    }
+                    match found {
+                        None => {
+                            v.push(Rec { name: "sections.next", val: Val::E(0) });
+                            break;
+                        }
+                        Some(o) => {
+                            u(&mut v, "sections.next", 1);
+                            let raw = rd32(t, o + 4);
+                            let (flags, addr, sz, align) = if es == 40 { (rd32(t, o + 8) as u64, rd32(t, o + 12) as u64, rd32(t, o + 20) as u64, rd32(t, o + 32) as u64) } else { (rd64(t, o + 8), rd64(t, o + 16), rd64(t, o + 32), rd64(t, o + 48)) };
+                            u(&mut v, "section.type_raw", raw as u64);
+                            u(&mut v, "section.type", match raw {
+                                0x6000_0000..=0x6FFF_FFFF => 0x6000_0000,
+                                0x7000_0000..=0x7FFF_FFFF => 0x7000_0000,
+                                r => r as u64,
+                            });
+                            u(&mut v, "section.flags", flags & 7);
+                            u(&mut v, "section.start_address", addr);
+                            u(&mut v, "section.size", sz);
+                            u(&mut v, "section.addralign", align);
+                            u(&mut v, "section.is_allocated", (flags >> 1) & 1);
+                            if derived {
+                                u(&mut v, "section.end_address", addr + sz);
+                            }
+                        }
+                    }
+                }
+            }
+            APM => {
+                u(&mut v, "version", rd16(t, 8) as u64);
+                u(&mut v, "cseg", rd16(t, 10) as u64);
+                u(&mut v, "offset", rd32(t, 12) as u64);
+                u(&mut v, "cset_16", rd16(t, 16) as u64);
+                u(&mut v, "dseg", rd16(t, 18) as u64);
+                u(&mut v, "flags", rd16(t, 20) as u64);
+                u(&mut v, "cseg_len", rd16(t, 22) as u64);
+                u(&mut v, "cseg_16_len", rd16(t, 24) as u64);
+                u(&mut v, "dseg_len", rd16(t, 26) as u64);
+            }
+            EFI32 => u(&mut v, "sdt_address", rd32(t, 8) as u64),
+            EFI64 => u(&mut v, "sdt_address", rd64(t, 8)),
+            EFI32_IH => u(&mut v, "image_handle", rd32(t, 8) as u64),
+            EFI64_IH => u(&mut v, "image_handle", rd64(t, 8)),
+            SMBIOS => {
+                u(&mut v, "major", t[8] as u64);
+                u(&mut v, "minor", t[9] as u64);
+                s(&mut v, "tables", t, 16, size - 16);
+            }
+            ACPI1 => {
+                utf8(&mut v, "signature", t, 8, 8);
+                u(&mut v, "checksum_is_valid", (t[8..28].iter().fold(0u8, |a, b| a.wrapping_add(*b)) == 0) as u64);
+                utf8(&mut v, "oem_id", t, 17, 6);
+                u(&mut v, "revision", t[23] as u64);
+                u(&mut v, "rsdt_address", rd32(t, 24) as u64);
+            }
+            ACPI2 => {
+                utf8(&mut v, "signature", t, 8, 8);
+                let len = (rd32(t, 28) as usize).min(36);
+                u(&mut v, "checksum_is_valid", (t[8..8 + len].iter().fold(0u8, |a, b| a.wrapping_add(*b)) == 0) as u64);
+                utf8(&mut v, "oem_id", t, 17, 6);
+                u(&mut v, "revision", t[23] as u64);
+                u(&mut v, "xsdt_address", rd64(t, 32));
+                u(&mut v, "ext_checksum", t[40] as u64);
+            }
+            NETWORK => u(&mut v, "metadata", (size - 8) as u64),
+            EFI_MMAP => {
+                let d = rd32(t, 8) as usize;
+                let n = (size - 16) / d;
+                for i in 0..8 {
+                    u(&mut v, "areas.len", (n - i.min(n)) as u64);
+                    if i < n {
+                        let o = 16 + i * d;
+                        v.push(Rec { name: "areas.next", val: Val::S { off: o as i64, len: 40, hash: 0 } });
+                        u(&mut v, "desc.ty", rd32(t, o) as u64);
+                        u(&mut v, "desc.phys_start", rd64(t, o + 8));
+                        u(&mut v, "desc.virt_start", rd64(t, o + 16));
+                        u(&mut v, "desc.page_count", rd64(t, o + 24));
+                        u(&mut v, "desc.att", rd64(t, o + 32));
+                    } else {
+                        v.push(Rec { name: "areas.next", val: Val::E(0) });
+                        break;
+                    }
+                }
+            }
+            LOAD_BASE => u(&mut v, "load_base_addr", rd32(t, 8) as u64),
+            END | EFI_BS => {}
+            _ => {
+                // generic / custom
+                s(&mut v, "payload", t, 8, size - 8);
+            }
+        }
+        v
+    }
+}
